@@ -23,6 +23,21 @@ CLAIMED = {
             "Core's SignatureHash/BIP143/BIP341 in Spec/Consensus.lean (corroborated by embit's recorded signing vectors in C02). "
             "Digest memoisation across calls is C19's subject.",
             "§5 C01"),
+    "C04": ("proof",
+            "Lean 4 theorems (KV framing round trip/soundness, per-scope losslessness and duplicate-key rejection, whole-PSBT decomposition, v0 unsigned-tx reconstruction) + correspondence",
+            "Props/C04.lean proves for every byte string, key validator and hash function (KEEP_ALL mode, no size bound): a PSBT that "
+            "parses is exactly the canonical framing of its global/input/output pairs (so truncation, missing separators and trailing "
+            "bytes are refused); every pair of every scope, known or unknown, is present with identical bytes in what write_to emits; "
+            "no key occurs twice in an accepted input/output scope; the global pairs incl. explicit version are kept; for version 0 "
+            "the transaction rebuilt from the scopes is bit-identical to the global unsigned transaction; bad magic is refused. "
+            "Each run ties the model to embit field by field (parse in 3 compression modes, re-serialisation, reconstructed tx) on "
+            "generated PSBTs over every BIP174/370/371 field type and on structural corruptions, and evaluates the property "
+            "directly on embit with an independent KV splitter and an independently built unsigned transaction. Partial: "
+            "ser∘parse identity and the v2 reconstruction against BIP370 are checked by correspondence/predicate only (listed as GOALs).",
+            "Trusted: Lean kernel + propext/Quot.sound/Classical.choice; harness (generator, independent splitter/builder); public-key "
+            "validity is abstract in theorems (KeyOps) and concrete (own secp256k1) in the driver; PSBTv2 required-locktime fields are "
+            "treated as unknown keys.",
+            "§5 C04"),
     "C03": ("proof",
             "Lean 4 theorems (parser = inverse of wire encoding, all inputs) + model/implementation correspondence",
             "Props/C03.lean proves, for every transaction and every byte string with no size bound, that the model's "
